@@ -461,54 +461,40 @@ fn check_reg(reg: &Reg, m: &M, odd_step: bool) -> Option<(&'static str, String, 
             return Some(("I3-iter", format!("HandValidator::iter(&hand) item {} = {:#010x}, model slot {} = {:#010x}", k, x, k, want[k]), x));
         }
     }
-    // I5: the slot-index selection read path, on the identity and the reversed tuple
-    // (between them every slot), for every live six- or seven-slot register
-    // The two selections are made in alternating order from step to step, so that the same
-    // tuple is applied to consecutive states back to back (a last-result shortcut keyed on too
-    // little would confuse them).
-    let sel = match reg {
-        Reg::Six(x) => {
-            let (a, b) = if odd_step {
-                let b = x.five_from_permutation([5, 4, 3, 2, 1]);
-                (x.five_from_permutation([0, 1, 2, 3, 4]), b)
-            } else {
-                (x.five_from_permutation([0, 1, 2, 3, 4]), x.five_from_permutation([5, 4, 3, 2, 1]))
+    // I5: the slot-index selection read path as a standing invariant on every live six- or
+    // seven-slot register: the identity tuple and the reversed tuple by method syntax (between
+    // them every slot), and a scrambled tuple through `Permutator::five_from_permutation` named
+    // as the trait's method. The three are made in opposite order on odd and even steps, so that
+    // at every step boundary the same tuple is applied to two consecutive states back to back
+    // (a last-result shortcut keyed on too little would confuse exactly those).
+    let n_slots = m.n as usize;
+    if n_slots >= 6 {
+        let tuples: [([u8; 5], bool); 3] = if n_slots == 6 { [([0, 1, 2, 3, 4], false), ([5, 4, 3, 2, 1], false), ([5, 3, 1, 4, 2], true)] } else { [([0, 1, 2, 3, 4], false), ([6, 5, 4, 3, 2], false), ([6, 4, 2, 0, 5], true)] };
+        let order: [usize; 3] = if odd_step { [2, 1, 0] } else { [0, 1, 2] };
+        for t in order {
+            let (idx, via_trait) = tuples[t];
+            let five = match reg {
+                Reg::Six(x) => {
+                    if via_trait {
+                        Permutator::five_from_permutation(x, idx)
+                    } else {
+                        x.five_from_permutation(idx)
+                    }
+                }
+                Reg::Seven(x) => {
+                    if via_trait {
+                        Permutator::five_from_permutation(x, idx)
+                    } else {
+                        x.five_from_permutation(idx)
+                    }
+                }
+                _ => break,
             };
-            Some((a, b, [5usize, 4, 3, 2, 1]))
-        }
-        Reg::Seven(x) => {
-            let (a, b) = if odd_step {
-                let b = x.five_from_permutation([6, 5, 4, 3, 2]);
-                (x.five_from_permutation([0, 1, 2, 3, 4]), b)
-            } else {
-                (x.five_from_permutation([0, 1, 2, 3, 4]), x.five_from_permutation([6, 5, 4, 3, 2]))
-            };
-            Some((a, b, [6usize, 5, 4, 3, 2]))
-        }
-        _ => None,
-    };
-    if let Some((ident, rev, ridx)) = sel {
-        let (ia, ra) = (ident.to_arr(), rev.to_arr());
-        for j in 0..5 {
-            if ia[j] != want[j] {
-                return Some(("I5-select", format!("five_from_permutation([0,1,2,3,4]) slot {} = {:#010x}, model slot {} = {:#010x}", j, ia[j], j, want[j]), ia[j]));
-            }
-            if ra[j] != want[ridx[j]] {
-                return Some(("I5-select", format!("five_from_permutation({:?}) slot {} = {:#010x}, model slot {} = {:#010x}", ridx, j, ra[j], ridx[j], want[ridx[j]]), ra[j]));
-            }
-        }
-    }
-    // … and the selection through `Permutator::five_from_permutation` named as the trait's method
-    let tsel = match reg {
-        Reg::Six(x) => Some((Permutator::five_from_permutation(x, [5, 3, 1, 4, 2]), [5usize, 3, 1, 4, 2])),
-        Reg::Seven(x) => Some((Permutator::five_from_permutation(x, [6, 4, 2, 0, 5]), [6usize, 4, 2, 0, 5])),
-        _ => None,
-    };
-    if let Some((five, idx)) = tsel {
-        let a = five.to_arr();
-        for j in 0..5 {
-            if a[j] != want[idx[j]] {
-                return Some(("I5-select", format!("Permutator::five_from_permutation(&hand, {:?}) slot {} = {:#010x}, model slot {} = {:#010x}", idx, j, a[j], idx[j], want[idx[j]]), a[j]));
+            let a = five.to_arr();
+            for j in 0..5 {
+                if a[j] != want[idx[j] as usize] {
+                    return Some(("I5-select", format!("{}five_from_permutation({:?}) slot {} = {:#010x}, model slot {} = {:#010x}", if via_trait { "Permutator::" } else { "" }, idx, j, a[j], idx[j], want[idx[j] as usize]), a[j]));
+                }
             }
         }
     }
